@@ -302,3 +302,261 @@ func assignedOnlyFrom(f *Func, obj types.Object, ok func(rhs ast.Expr, idx int, 
 	})
 	return all, count
 }
+
+// deqProv says which variables of the dispatcher step hold this invocation's dequeued value, its receipt and the queue
+// it was taken from. The Dequeue calls sit in the step itself or in a helper the step calls once; in the latter case a
+// result position of the helper carries a role when every return statement of the helper returns, at that position,
+// either a variable of that role or a zero value (nil, "", the error paths).
+type deqProv struct {
+	DeqFn           *Func // function that contains the Dequeue calls
+	Val, Ack, Queue map[types.Object]bool
+	Problem         string
+}
+
+func (c *Ctx) deqProvenance() *deqProv {
+	if v, ok := c.cache["deqprov"]; ok {
+		return v.(*deqProv)
+	}
+	if c.cache == nil {
+		c.cache = map[string]any{}
+	}
+	R := c.R
+	pv := &deqProv{Val: map[types.Object]bool{}, Ack: map[types.Object]bool{}, Queue: map[types.Object]bool{}}
+	c.cache["deqprov"] = pv
+	if R.Step == nil {
+		pv.Problem = "dispatcher step unresolved"
+		return pv
+	}
+	fns := filterPkg(c.P.funcsCalling(kDequeue, kDequeueAck), modPath)
+	if len(fns) != 1 {
+		pv.Problem = fmt.Sprintf("%d functions call Dequeue", len(fns))
+		return pv
+	}
+	g := fns[0]
+	pv.DeqFn = g
+	info := g.Info()
+	val, ack, queue := map[types.Object]bool{}, map[types.Object]bool{}, map[types.Object]bool{}
+	var dequeuedFrom []types.Object
+	ast.Inspect(g.Body, func(n ast.Node) bool {
+		as, ok := n.(*ast.AssignStmt)
+		if !ok || len(as.Rhs) != 1 {
+			return true
+		}
+		call, ok := ast.Unparen(as.Rhs[0]).(*ast.CallExpr)
+		if !ok {
+			return true
+		}
+		ce := resolveCallee(info, call)
+		if ce.Key != kDequeue && ce.Key != kDequeueAck {
+			return true
+		}
+		if o := rootIdent(info, as.Lhs[0]); o != nil {
+			val[o] = true
+		}
+		if ce.Key == kDequeueAck && len(as.Lhs) == 3 {
+			if o := rootIdent(info, as.Lhs[2]); o != nil {
+				ack[o] = true
+			}
+		}
+		if o := rootIdent(info, ce.Recv); o != nil {
+			dequeuedFrom = append(dequeuedFrom, o)
+			queue[o] = true
+		}
+		return true
+	})
+	// the queue variable: what the type switch whose clause variables receive the Dequeue calls ranges over
+	ast.Inspect(g.Body, func(n ast.Node) bool {
+		if ts, ok := n.(*ast.TypeSwitchStmt); ok {
+			if as, ok := ts.Assign.(*ast.AssignStmt); ok && len(as.Rhs) == 1 {
+				if ta, ok := ast.Unparen(as.Rhs[0]).(*ast.TypeAssertExpr); ok {
+					for _, cc := range ts.Body.List {
+						for _, d := range dequeuedFrom {
+							if info.Implicits[cc] == d {
+								if o := rootIdent(info, ta.X); o != nil {
+									queue[o] = true
+								}
+							}
+						}
+					}
+				}
+			}
+		}
+		return true
+	})
+	if g == R.Step {
+		pv.Val, pv.Ack, pv.Queue = val, ack, queue
+		return pv
+	}
+	// helper: classify its result positions
+	var sites []*ast.AssignStmt
+	ast.Inspect(R.Step.Body, func(n ast.Node) bool {
+		if as, ok := n.(*ast.AssignStmt); ok && len(as.Rhs) == 1 {
+			if call, ok := ast.Unparen(as.Rhs[0]).(*ast.CallExpr); ok && resolveCallee(R.Step.Info(), call).Key == g.Key {
+				sites = append(sites, as)
+			}
+		}
+		return true
+	})
+	if len(sites) != 1 || g.Type.Results == nil {
+		pv.Problem = fmt.Sprintf("the helper %s that dequeues is not called exactly once, with its results assigned, by the step", g.Short())
+		return pv
+	}
+	var resVars []types.Object // named results, or nil entries
+	nres := 0
+	for _, fld := range g.Type.Results.List {
+		if len(fld.Names) == 0 {
+			resVars = append(resVars, nil)
+			nres++
+		}
+		for _, nm := range fld.Names {
+			resVars = append(resVars, info.ObjectOf(nm))
+			nres++
+		}
+	}
+	kinds := make([]string, nres)
+	roleOf := func(e ast.Expr) string {
+		if tv, ok := info.Types[e]; ok && (tv.IsNil() || (tv.Value != nil && (tv.Value.ExactString() == `""` || tv.Value.ExactString() == "0" || tv.Value.ExactString() == "false"))) {
+			return "zero"
+		}
+		o := rootIdent(info, e)
+		if _, isId := ast.Unparen(e).(*ast.Ident); !isId || o == nil {
+			return "other"
+		}
+		switch {
+		case val[o]:
+			return "val"
+		case ack[o]:
+			return "ack"
+		case queue[o]:
+			return "queue"
+		}
+		return "other"
+	}
+	merge := func(i int, k string) {
+		switch {
+		case k == "zero" || kinds[i] == k:
+		case kinds[i] == "":
+			kinds[i] = k
+		default:
+			kinds[i] = "other"
+		}
+	}
+	ast.Inspect(g.Body, func(n ast.Node) bool {
+		if _, ok := n.(*ast.FuncLit); ok {
+			return false
+		}
+		ret, ok := n.(*ast.ReturnStmt)
+		if !ok {
+			return true
+		}
+		for i := 0; i < nres; i++ {
+			switch {
+			case len(ret.Results) == nres:
+				merge(i, roleOf(ret.Results[i]))
+			case len(ret.Results) == 0 && resVars[i] != nil:
+				o := resVars[i]
+				switch {
+				case val[o]:
+					merge(i, "val")
+				case ack[o]:
+					merge(i, "ack")
+				case queue[o]:
+					merge(i, "queue")
+				default:
+					merge(i, "other")
+				}
+			default:
+				merge(i, "other")
+			}
+		}
+		return true
+	})
+	as := sites[0]
+	sinfo := R.Step.Info()
+	for i, k := range kinds {
+		if i >= len(as.Lhs) {
+			break
+		}
+		o := rootIdent(sinfo, as.Lhs[i])
+		if o == nil {
+			continue
+		}
+		switch k {
+		case "val":
+			pv.Val[o] = true
+		case "ack":
+			pv.Ack[o] = true
+		case "queue":
+			pv.Queue[o] = true
+		}
+	}
+	return pv
+}
+
+// helperResultKinds classifies the result positions of a helper function: position i has role k when every return
+// statement of g returns, at i, a plain variable of role k (as told by role) or a zero value, and at least one returns
+// a variable of that role; "" when only zero values, "other" otherwise.
+func helperResultKinds(g *Func, role func(o types.Object) string) []string {
+	if g == nil || g.Type.Results == nil || g.Body == nil {
+		return nil
+	}
+	info := g.Info()
+	var resVars []types.Object
+	for _, fld := range g.Type.Results.List {
+		if len(fld.Names) == 0 {
+			resVars = append(resVars, nil)
+		}
+		for _, nm := range fld.Names {
+			resVars = append(resVars, info.ObjectOf(nm))
+		}
+	}
+	nres := len(resVars)
+	kinds := make([]string, nres)
+	merge := func(i int, k string) {
+		switch {
+		case k == "zero" || kinds[i] == k:
+		case kinds[i] == "":
+			kinds[i] = k
+		default:
+			kinds[i] = "other"
+		}
+	}
+	roleOf := func(e ast.Expr) string {
+		if tv, ok := info.Types[e]; ok && (tv.IsNil() || (tv.Value != nil && (tv.Value.ExactString() == `""` || tv.Value.ExactString() == "0" || tv.Value.ExactString() == "false"))) {
+			return "zero"
+		}
+		o := rootIdent(info, e)
+		if _, isId := ast.Unparen(e).(*ast.Ident); !isId || o == nil {
+			return "other"
+		}
+		if k := role(o); k != "" {
+			return k
+		}
+		return "other"
+	}
+	ast.Inspect(g.Body, func(n ast.Node) bool {
+		if _, ok := n.(*ast.FuncLit); ok {
+			return false
+		}
+		ret, ok := n.(*ast.ReturnStmt)
+		if !ok {
+			return true
+		}
+		for i := 0; i < nres; i++ {
+			switch {
+			case len(ret.Results) == nres:
+				merge(i, roleOf(ret.Results[i]))
+			case len(ret.Results) == 0 && resVars[i] != nil:
+				if k := role(resVars[i]); k != "" {
+					merge(i, k)
+				} else {
+					merge(i, "other")
+				}
+			default:
+				merge(i, "other")
+			}
+		}
+		return true
+	})
+	return kinds
+}
